@@ -65,7 +65,7 @@ def small_nested():
 # random documents (seeded), biased to collisions: tiny alphabets so equal elements, shared
 # prefixes/suffixes and duplicate values arise by construction
 WORDS = ("", "a", "b", "ab", "ba", "abc", "abd", "xyz", "hello", "help", "1", "true", "null", "aaaaaaaaaa", "aaaaaaaaab")
-RKEYS = ("a", "b", "c", "ab", "ba", "abc", "key", "kez", "aaaaaaaaaa", "aaaaaaaaab")
+RKEYS = ("a", "b", "c", "ab", "ba", "abc", "key", "kez", "aaaaaaaaaa", "aaaaaaaaab", "A", "Key", "KEY", "aB")
 
 
 def random_scalar(r, twins=False):
